@@ -1,3 +1,351 @@
 // Included into daemon/src/mrt.rs as `mod verif_harness` (guard: cfg osrg_rustybgp_verif).
+//
+// C19, MRT half: BGP4MP records through the real adj_rib_in_to_mrt + MrtCodec, TABLE_DUMP_V2 through the real dump_table on
+// a real TableManager; both read back by the independent reader (harness/common/monitor_reader.rs).
+//   VERIF_IN : cases (tab separated);  VERIF_OUT : {"i": n, "obs": {...}} per MRT case;  VERIF_WORK : scratch directory
 #[allow(unused_imports)]
 use super::*;
+use std::io::{BufRead, Write as _};
+use std::sync::Arc;
+
+use rustybgp_packet as packet;
+
+include!(concat!(env!("OSRG_RUSTYBGP_VERIF_DIR"), "/../common/monitor_cases.rs"));
+
+fn panic_text(e: Box<dyn std::any::Any + Send>) -> String {
+    if let Some(s) = e.downcast_ref::<&str>() {
+        s.to_string()
+    } else if let Some(s) = e.downcast_ref::<String>() {
+        s.clone()
+    } else {
+        "panic".to_string()
+    }
+}
+
+fn ip_bytes(a: IpAddr) -> Vec<u8> {
+    match a {
+        IpAddr::V4(x) => x.octets().to_vec(),
+        IpAddr::V6(x) => x.octets().to_vec(),
+    }
+}
+
+fn observe_mp(c: &Case) -> reader::Obs {
+    let fam = mc_family(&c.fam);
+    let src = mc_source(&c.peer, &c.local);
+    let entries = mc_entries(fam, &c.count, c.addpath);
+    let attrs = mc_attrs(&c.attrs);
+    let nexthop = if c.dir == "reach" { mc_nexthop(fam, &c.nh) } else { None };
+    let change = AdjRibInChange {
+        source: src.clone(),
+        family: fam,
+        addpath: c.addpath,
+        nlris: entries.clone(),
+        attrs: if c.dir == "reach" { Some(attrs.clone()) } else { None },
+        nexthop,
+        timestamp: 1_700_000_000,
+    };
+    let mut buf = bytes::BytesMut::new();
+    let r = catch_unwind(AssertUnwindSafe(|| {
+        let msg = adj_rib_in_to_mrt(&change);
+        let mut codec = mrt::MrtCodec::new();
+        codec.encode(&msg, &mut buf)
+    }));
+    match r {
+        Err(e) => return reader::Obs::failed("panic", &panic_text(e)),
+        Ok(Err(e)) => return reader::Obs::failed("error", &format!("{e:?}")),
+        Ok(Ok(())) => {}
+    }
+    // the encoder may write several records for one event: walk them by their length fields
+    let mut o = reader::Obs::new();
+    let raw = buf.to_vec();
+    let mut off = 0usize;
+    let mut all_pdus = Vec::new();
+    while off < raw.len() {
+        if raw.len() - off < 12 {
+            o.lenok = false;
+            break;
+        }
+        let len = u32::from_be_bytes([raw[off + 8], raw[off + 9], raw[off + 10], raw[off + 11]]) as usize;
+        if off + 12 + len > raw.len() {
+            o.lenok = false;
+            break;
+        }
+        let rec = match reader::read_mrt(&raw[off..off + 12 + len]) {
+            Ok(r) => r,
+            Err(e) => {
+                o.lenok = false;
+                o.note = e;
+                break;
+            }
+        };
+        off += 12 + len;
+        o.nrec += 1;
+        reader::Obs::merge_i(&mut o.typ, rec.typ as i64);
+        reader::Obs::merge_i(&mut o.subtype, rec.subtype as i64);
+        match reader::read_bgp4mp(rec.subtype, &rec.body) {
+            Err(e) => {
+                o.parse = format!("error: {e}");
+                o.addrok = false;
+            }
+            Ok(h) => {
+                reader::Obs::merge_i(&mut o.aswidth, h.aswidth as i64);
+                reader::Obs::merge_i(&mut o.afi, h.afi as i64);
+                let want_afi = if c.peer == "v4" { 1 } else { 2 };
+                if h.afi != want_afi || h.peer_ip != ip_bytes(src.remote_addr) || h.local_ip != ip_bytes(src.local_addr) {
+                    o.addrok = false;
+                }
+                if h.peer_as != src.remote_asn || h.local_as != src.local_asn {
+                    o.content = format!("diff: AS numbers {} / {} in the header", h.peer_as, h.local_as);
+                }
+                let (pdus, left) = reader::split_pdus(&h.message);
+                o.minpdus = o.minpdus.min(pdus.len());
+                o.maxpdus = o.maxpdus.max(pdus.len());
+                o.leftover |= left;
+                all_pdus.extend(pdus);
+            }
+        }
+    }
+    if o.parse == "ok" && !all_pdus.is_empty() {
+        // RFC 8050: the add-path form of the NLRI is announced by the subtype, not by the caller
+        let stated_addpath = matches!(o.subtype, 8 | 9 | 10 | 11);
+        match mc_decode(&all_pdus, stated_addpath) {
+            Err(e) => o.parse = format!("error: {e}"),
+            Ok(d) => {
+                let cmp = mc_compare(&d, &c.dir, fam, &entries, &attrs, nexthop);
+                if o.content == "same" {
+                    o.content = cmp;
+                }
+            }
+        }
+    }
+    o
+}
+
+async fn observe_td(c: &Case, work: &str) -> reader::Obs {
+    let fam = mc_family(&c.fam);
+    let tables: TableHandle = Arc::new(crate::table_manager::TableManager::new(2));
+    // sources
+    let mk = |addr: IpAddr, asn: u32, id: u8| {
+        Arc::new(rustybgp_table::Source::new(addr, mc_addr(if addr.is_ipv4() { "v4" } else { "v6" }, 254), asn, 65001, Ipv4Addr::new(192, 0, 2, id), rustybgp_table::PeerRole::Ebgp))
+    };
+    let mut sources: Vec<Arc<rustybgp_table::Source>> = match c.x.as_str() {
+        "peers1" => vec![mk(mc_addr(&c.peer, 77), 4_200_000_077, 77)],
+        "peers3" => vec![mk(mc_addr(&c.peer, 77), 4_200_000_077, 77), mk(mc_addr(&c.peer, 78), 65078, 78), mk(mc_addr(&c.peer, 79), 65079, 79)],
+        "peersmixed" => vec![mk(mc_addr("v4", 77), 65077, 77), mk(mc_addr("v6", 78), 4_200_000_078, 78)],
+        _ => vec![mk(mc_addr(&c.peer, 77), 65077, 77)],
+    };
+    if c.x == "localsrc" {
+        sources.push(rustybgp_table::Source::local());
+    }
+    let entries = mc_entries(fam, &c.count, false);
+    let attrs = mc_attrs(&c.attrs);
+    let nexthop = mc_nexthop(fam, &c.nh);
+    // also one prefix of the OTHER unicast family so that both RIB subtypes and the shared peer table are written
+    let other = if fam == Family::IPV4 { Family::IPV6 } else { Family::IPV4 };
+    let other_entries = mc_entries(other, "one", false);
+    let mut expect: Vec<(String, Vec<u8>)> = Vec::new(); // (prefix debug, peer address bytes)
+    for (si, s) in sources.iter().enumerate() {
+        for (ei, e) in entries.iter().enumerate() {
+            if si > 0 && ei % 2 == 1 {
+                continue; // not every peer announces every prefix
+            }
+            tables.insert_route(s.clone(), fam, e.clone(), nexthop, attrs.clone(), None, 1);
+            expect.push((format!("{}", e.nlri), ip_bytes(s.remote_addr)));
+        }
+    }
+    tables.insert_route(sources[0].clone(), other, other_entries[0].clone(), mc_nexthop(other, if other == Family::IPV6 { "v6" } else { "v4" }), mc_attrs("small"), None, 1);
+    let path = format!("{}/C19.td.{}.mrt", work, c.i);
+    let r = {
+        let mut file = match tokio::fs::File::create(&path).await {
+            Ok(f) => f,
+            Err(e) => return reader::Obs::failed("error", &format!("harness: cannot create {path}: {e}")),
+        };
+        let fut = dump_table(Ipv4Addr::new(192, 0, 2, 254), &tables, &mut file);
+        let r = AssertUnwindSafe(fut).catch_unwind().await;
+        let _ = tokio::io::AsyncWriteExt::flush(&mut file).await;
+        r
+    };
+    match r {
+        Err(e) => return reader::Obs::failed("panic", &panic_text(e)),
+        Ok(Err(e)) => return reader::Obs::failed("error", &format!("{e:?}")),
+        Ok(Ok(())) => {}
+    }
+    let raw = std::fs::read(&path).unwrap_or_default();
+    let _ = std::fs::remove_file(&path);
+    let mut o = reader::Obs::new();
+    let mut off = 0usize;
+    let mut peers: Vec<reader::TdPeer> = Vec::new();
+    let mut got: Vec<(String, Vec<u8>)> = Vec::new();
+    let mut first = true;
+    let want_attrs: Vec<(u8, Vec<u8>)> = {
+        // as they appear in an attribute block: ORIGIN is one octet
+        let mut a: Vec<(u8, Vec<u8>)> = attrs.iter().map(mc_attr_key).map(|(c, p)| if c == 1 { (c, p[3..].to_vec()) } else { (c, p) }).collect();
+        a.sort();
+        a
+    };
+    while off < raw.len() {
+        if raw.len() - off < 12 {
+            o.lenok = false;
+            break;
+        }
+        let len = u32::from_be_bytes([raw[off + 8], raw[off + 9], raw[off + 10], raw[off + 11]]) as usize;
+        if off + 12 + len > raw.len() {
+            o.lenok = false;
+            break;
+        }
+        let rec = reader::read_mrt(&raw[off..off + 12 + len]).unwrap();
+        off += 12 + len;
+        o.nrec += 1;
+        reader::Obs::merge_i(&mut o.typ, rec.typ as i64);
+        if first {
+            first = false;
+            if rec.subtype != 1 {
+                o.parse = "error: the dump does not start with PEER_INDEX_TABLE".into();
+                break;
+            }
+            match reader::read_peer_index(&rec.body) {
+                Err(e) => {
+                    o.countok = false;
+                    o.note = e;
+                    break;
+                }
+                Ok((_, p, consumed)) => {
+                    if !consumed {
+                        o.countok = false;
+                    }
+                    peers = p;
+                }
+            }
+            continue;
+        }
+        let v6 = match rec.subtype {
+            2 => false,
+            4 => true,
+            s => {
+                o.parse = format!("error: unexpected TABLE_DUMP_V2 subtype {s}");
+                break;
+            }
+        };
+        let (_, bits, pfx, ents, consumed) = match reader::read_rib(&rec.body, v6) {
+            Ok(x) => x,
+            Err(e) => {
+                o.countok = false;
+                o.note = e;
+                break;
+            }
+        };
+        if !consumed {
+            o.countok = false;
+        }
+        let pstr = if v6 {
+            let mut a = [0u8; 16];
+            a[..pfx.len()].copy_from_slice(&pfx);
+            format!("{}/{}", std::net::Ipv6Addr::from(a), bits)
+        } else {
+            let mut a = [0u8; 4];
+            a[..pfx.len()].copy_from_slice(&pfx);
+            format!("{}/{}", Ipv4Addr::from(a), bits)
+        };
+        let is_case_family = v6 == (fam == Family::IPV6);
+        if is_case_family {
+            reader::Obs::merge_i(&mut o.subtype, rec.subtype as i64);
+        }
+        for e in ents {
+            let Some(p) = peers.get(e.peer_index as usize) else {
+                o.idxok = false;
+                continue;
+            };
+            if !p.as4 {
+                o.idxok = false; // this daemon always writes four-octet AS numbers
+            }
+            match reader::split_attrs(&e.attrs) {
+                Err(x) => o.parse = format!("error: {x}"),
+                Ok(list) => {
+                    if !is_case_family {
+                        continue;
+                    }
+                    got.push((pstr.clone(), p.addr.clone()));
+                    let mut plain: Vec<(u8, Vec<u8>)> = Vec::new();
+                    let mut nh_seen: Option<Vec<u8>> = None;
+                    for (_fl, code, val) in list {
+                        match code {
+                            3 => {
+                                if val.len() != 4 {
+                                    o.parse = format!("error: NEXT_HOP attribute of {} bytes", val.len());
+                                }
+                                nh_seen = Some(val);
+                            }
+                            14 => {
+                                // RFC 6396 4.3.4: next hop length + next hop only
+                                if val.is_empty() || val[0] as usize != val.len() - 1 || !matches!(val[0], 4 | 16 | 32) {
+                                    o.parse = "error: MP_REACH_NLRI of a RIB entry is not <next hop length, next hop>".into();
+                                }
+                                nh_seen = Some(val[1..].to_vec());
+                            }
+                            _ => {
+                                if packet::Attribute::canonical_flags(code).is_some() && packet::Attribute::from_wire_value(code, &val).is_none() {
+                                    o.parse = format!("error: attribute {code} malformed");
+                                }
+                                plain.push((code, val));
+                            }
+                        }
+                    }
+                    plain.sort();
+                    if plain != want_attrs && o.content == "same" {
+                        let codes = |v: &Vec<(u8, Vec<u8>)>| v.iter().map(|(c, p)| format!("{}/{}", c, p.len())).collect::<Vec<_>>().join(" ");
+                        o.content = format!("diff: attributes differ: monitored [{}] found [{}]", codes(&want_attrs), codes(&plain));
+                    }
+                    let want_nh = nexthop.map(|n| n.to_bytes());
+                    if nh_seen != want_nh && o.content == "same" {
+                        o.content = format!("diff: next hop {:?} monitored, {:?} found", want_nh, nh_seen);
+                    }
+                }
+            }
+        }
+    }
+    if off != raw.len() {
+        o.lenok = false;
+    }
+    // peer table: every source exactly once, with its address / AS / id
+    for s in &sources {
+        let n = peers.iter().filter(|p| p.addr == ip_bytes(s.remote_addr) && p.v6 == s.remote_addr.is_ipv6()).count();
+        if n != 1 {
+            o.idxok = false;
+            o.note = format!("peer {} listed {} times", s.remote_addr, n);
+        }
+    }
+    for p in &peers {
+        if let Some(s) = sources.iter().find(|s| ip_bytes(s.remote_addr) == p.addr) {
+            if p.asn != s.remote_asn || p.bgp_id != Ipv4Addr::from(s.router_id).octets() {
+                o.idxok = false;
+                o.note = "peer entry AS / id differ from the source".into();
+            }
+        }
+    }
+    if o.content == "same" && !mc_same_multiset(&got, &expect) {
+        o.content = format!("diff: {} (prefix, peer) entries in the table, {} in the dump (or different ones)", expect.len(), got.len());
+    }
+    o
+}
+
+#[tokio::test]
+async fn c19_mrt_records() {
+    use futures::FutureExt as _;
+    let inp = std::env::var("VERIF_IN").expect("VERIF_IN");
+    let outp = std::env::var("VERIF_OUT").expect("VERIF_OUT");
+    let work = std::env::var("VERIF_WORK").expect("VERIF_WORK");
+    let mut out = std::io::BufWriter::new(std::fs::File::create(outp).unwrap());
+    let hook = std::panic::take_hook();
+    std::panic::set_hook(Box::new(|_| {}));
+    for line in std::io::BufReader::new(std::fs::File::open(inp).unwrap()).lines() {
+        let line = line.unwrap();
+        let Some(c) = parse_case(&line) else { continue };
+        let o = match c.k.as_str() {
+            "mrt" => observe_mp(&c),
+            "td" => observe_td(&c, &work).await,
+            _ => continue,
+        };
+        writeln!(out, "{{\"i\":{},\"obs\":{}}}", c.i, o.to_json()).unwrap();
+    }
+    std::panic::set_hook(hook);
+}
